@@ -817,10 +817,25 @@ impl LdapConnAsync {
                         } else {
                             match op {
                                 LdapOp::Single => {
-                                    self.resultmap.insert(id, tx);
+                                    if tx.is_closed() {
+                                        // The caller gave up (timed out) while the request was
+                                        // still queued, and its scrub request may have been
+                                        // handled already: don't leave a routing entry behind.
+                                        let mut msgmap = self.msgmap.lock().expect("msgmap mutex (closed op)");
+                                        msgmap.1.remove(&id);
+                                    } else {
+                                        self.resultmap.insert(id, tx);
+                                    }
                                     continue;
                                 },
-                                LdapOp::Search(_) => (),
+                                LdapOp::Search(_) => {
+                                    if tx.is_closed() {
+                                        // As above, for a Search whose start has timed out.
+                                        self.searchmap.remove(&id);
+                                        let mut msgmap = self.msgmap.lock().expect("msgmap mutex (closed search)");
+                                        msgmap.1.remove(&id);
+                                    }
+                                },
                                 LdapOp::Abandon(msgid) => {
                                     self.resultmap.remove(&msgid);
                                     self.searchmap.remove(&msgid);
